@@ -217,7 +217,8 @@ PROPS["C15"] = {
                   "Parser.Parse must accept the text and return a tree structurally equal to the generating tree (walk over exported node types, "
                   "independent of String()). rapid adds random typed trees rendered with minimal, random redundant and full parentheses and random "
                   "letter case of keywords, operator words and function names. For every accepted case the canonical rendering String() is parsed "
-                  "again and must render and parse identically (fixpoint).",
+                  "again and must render and parse identically (fixpoint); a statement-level leg does the same for WHERE and every select field of "
+                  "generated SELECTs with named fields (names print as `name` and are re-parsed under the same select list).",
     "level_note": "Trusted: the documented precedence table as encoded in lib/render.go (DocPrec) and the s-expression walkers. Literals are free of "
                   "quote characters (the language has no escape syntax). Only pre-optimisation trees are round-tripped.",
     "rule": "enumerated operator sequences (each emitted once; typeable ones are cases) + rapid trees depth 1-5 x 4 parenthesis styles x random case, "
@@ -228,6 +229,7 @@ PROPS["C15"] = {
     "legs": [
         {"test": "TestC15Sequences", "kind": "enum", "quick": {"shards": 2}, "thorough": {"shards": 16}},
         {"test": "TestC15Trees", "kind": "rapid", "quick": {"checks": 15000, "shards": 4}, "thorough": {"checks": 200000, "shards": 12}},
+        {"test": "TestC15Statements", "kind": "rapid", "quick": {"checks": 8000, "shards": 2}, "thorough": {"checks": 150000, "shards": 8}},
     ],
     "min_nontrivial": {"quick": 5000, "thorough": 50000},
 }
